@@ -115,6 +115,10 @@ func addRunProbes(o *sim.Outcome, r *runResult) {
 	o.ProbeN("src_kept_consumed_prefix", int64(r.keptPrefix))
 	o.ProbeN("dst_relocated", int64(r.relocations))
 	o.ProbeN("workbuf_requeried", int64(r.workGrew))
+	o.ProbeN("dst_window_stalls", int64(r.stalls))
+	if r.mixedHistory {
+		o.Probe("call_started_with_leftover_dst_history")
+	}
 	if r.giveUp != "" {
 		o.Probe("harness_gave_up: " + r.giveUp)
 	}
@@ -190,15 +194,27 @@ func runC03(t *sim.Tape, opt sim.RunOpt) *sim.Outcome {
 	return o
 }
 
+// runKey identifies the failing history family for known_findings.json: the
+// violated oracle, the decoder, and whether some call of the run started with
+// earlier output still in front of the destination's write index after part of
+// the output had already been discarded (see runResult.mixedHistory).
+func runKey(class string, st *stream, r *runResult) string {
+	k := class + ":" + xformNames[st.kind]
+	if r != nil && r.mixedHistory {
+		k += ":leftover_dst_history"
+	}
+	return k
+}
+
 // ---- C05: results do not depend on where the streams are split ----
 
-func compareRuns(o *sim.Outcome, ref, got *runResult, where string) {
+func compareRuns(o *sim.Outcome, st *stream, ref, got *runResult, where string) {
 	if !ref.complete || !got.complete {
 		o.Probe("comparison_skipped_incomplete_run")
 		return
 	}
 	if ref.final != got.final {
-		o.Fail("split_changes_status", "", "final status %q when delivered in pieces, %q with everything available; %s", got.final, ref.final, where)
+		o.Fail("split_changes_status", runKey("split_changes_status", st, got), "final status %q when delivered in pieces, %q with everything available; %s", got.final, ref.final, where)
 		return
 	}
 	if !bytes.Equal(ref.out, got.out) {
@@ -206,16 +222,75 @@ func compareRuns(o *sim.Outcome, ref, got *runResult, where string) {
 		for i < len(ref.out) && i < len(got.out) && ref.out[i] == got.out[i] {
 			i++
 		}
-		o.Fail("split_changes_output", "", "output differs at byte %d (lengths %d in pieces, %d at once); final status %q; %s", i, len(got.out), len(ref.out), got.final, where)
+		o.Fail("split_changes_output", runKey("split_changes_output", st, got), "output differs at byte %d (lengths %d in pieces, %d at once); final status %q; %s", i, len(got.out), len(ref.out), got.final, where)
 		return
 	}
 	if !isError(ref.final) && ref.consumed != got.consumed {
-		o.Fail("split_changes_consumed", "", "consumed %d source bytes when delivered in pieces, %d at once (final status %q); %s", got.consumed, ref.consumed, got.final, where)
+		o.Fail("split_changes_consumed", runKey("split_changes_consumed", st, got), "consumed %d source bytes when delivered in pieces, %d at once (final status %q); %s", got.consumed, ref.consumed, got.final, where)
 	}
+}
+
+// runDstMinimum measures the smallest fixed destination window with which a
+// decoder still completes (all source available, window drained and compacted
+// after every "$short write"). The property lets the destination be drained in
+// pieces down to one byte, so any minimum above 1 is reported.
+func runDstMinimum(t *sim.Tape, opt sim.RunOpt, o *sim.Outcome) *sim.Outcome {
+	st, err := drawStream(t, opt.Extra["repo"], 3000, false)
+	if err != nil {
+		fmt.Fprintln(os.Stderr, "csim: corpus:", err)
+		os.Exit(2)
+	}
+	setup := drawSetup(t)
+	hint := outHint(st)
+	d := func() *driver { return getDriver(opt, "asan") }
+	fp := sim.NewFP()
+	fp.AddStr("dst_minimum " + st.desc)
+	fp.Add(sim.Hash64(st.data))
+	o.FP = fp.Sum()
+	o.Sample = "minimum destination window of: " + xformNames[st.kind] + " decoder; " + st.desc
+	o.Nontrivial = len(st.payload) > 1
+	var ref *runResult
+	refSch := referenceSchedule(hint)
+	guard(o, func() string { return describe(st, refSch) }, func() { ref = runStream(d(), st, refSch, setup, false) })
+	if ref == nil || !ref.complete || len(ref.out) < 2 {
+		return o
+	}
+	stalled := 0
+	for _, w := range []int{1, 2, 3, 4, 8, 16, 64, 128, 256, 273, 274, 275, 512, 1024, 4096, 65536} {
+		sch := &schedule{splitAt: -1, fixedWindow: w, dstCap: hint, drainAll: true, maxCalls: 400000}
+		where := describe(st, sch)
+		var got *runResult
+		guard(o, func() string { return where }, func() { got = runStream(d(), st, sch, setup, opt.Verbose && w <= 2) })
+		if got == nil {
+			return o
+		}
+		o.Steps += int64(got.calls)
+		o.ProbeN("windows_tried", 1)
+		if got.stalls > 0 && !got.complete {
+			stalled = w
+			if opt.Verbose {
+				o.Tracef("window %d: %s", w, got.giveUp)
+			}
+			continue
+		}
+		compareRuns(o, st, ref, got, where)
+		if o.Class == "" && stalled > 0 {
+			o.Fail("dst_window_minimum", "dst_window_minimum:"+xformNames[st.kind],
+				"the %s decoder makes no progress with a destination window of %d bytes or less (\"$base: short write\" with nothing written or consumed, however often the window is emptied) and completes with %d; the property lets the destination be drained in pieces down to 1 byte; stream: %s",
+				xformNames[st.kind], stalled, w, st.desc)
+		}
+		o.Probe("min_window_" + xformNames[st.kind] + fmt.Sprintf("_%d", w))
+		return o
+	}
+	o.Fail("dst_window_minimum", "dst_window_minimum:"+xformNames[st.kind]+":none", "no destination window up to 65536 bytes lets the %s decoder make progress; stream: %s", xformNames[st.kind], st.desc)
+	return o
 }
 
 func runC05(t *sim.Tape, opt sim.RunOpt) *sim.Outcome {
 	o := &sim.Outcome{}
+	if opt.Mode == "dst_minimum" {
+		return runDstMinimum(t, opt, o)
+	}
 	maxLen := 12000
 	if opt.Mode == "every_split" {
 		maxLen = 1500
@@ -264,7 +339,7 @@ func runC05(t *sim.Tape, opt sim.RunOpt) *sim.Outcome {
 			if opt.Verbose && k == len(st.data)/2 {
 				o.Trace = append(o.Trace, got.trace...)
 			}
-			compareRuns(o, ref, got, where)
+			compareRuns(o, st, ref, got, where)
 			if o.Class != "" {
 				break
 			}
@@ -292,7 +367,7 @@ func runC05(t *sim.Tape, opt sim.RunOpt) *sim.Outcome {
 	o.Trace = append(o.Trace, got.trace...)
 	addRunProbes(o, got)
 	o.Nontrivial = got.calls >= 2
-	compareRuns(o, ref, got, where)
+	compareRuns(o, st, ref, got, where)
 	return o
 }
 
@@ -339,7 +414,7 @@ func runC07(t *sim.Tape, opt sim.RunOpt) *sim.Outcome {
 		return o
 	}
 	if r.final != "" {
-		o.Fail("valid_stream_rejected", "valid_stream_rejected:"+xformNames[st.kind], "a stream written by the reference encoder ended with status %q after %d output bytes (payload %d bytes); %s", r.final, len(r.out), len(st.payload), where)
+		o.Fail("valid_stream_rejected", runKey("valid_stream_rejected", st, r), "a stream written by the reference encoder ended with status %q after %d output bytes (payload %d bytes); %s", r.final, len(r.out), len(st.payload), where)
 		return o
 	}
 	if !bytes.Equal(r.out, st.payload) {
@@ -347,7 +422,7 @@ func runC07(t *sim.Tape, opt sim.RunOpt) *sim.Outcome {
 		for i < len(r.out) && i < len(st.payload) && r.out[i] == st.payload[i] {
 			i++
 		}
-		o.Fail("decoded_bytes_differ", "decoded_bytes_differ:"+xformNames[st.kind], "decoded output differs from the original payload at byte %d (lengths %d vs %d); %s", i, len(r.out), len(st.payload), where)
+		o.Fail("decoded_bytes_differ", runKey("decoded_bytes_differ", st, r), "decoded output differs from the original payload at byte %d (lengths %d vs %d); %s", i, len(r.out), len(st.payload), where)
 		return o
 	}
 	if r.consumed != len(st.data) {
